@@ -79,11 +79,29 @@ def sig(t):
 
 
 def nodes_of(obj):
+    """Every mutable part of a formula: the node objects and the operand lists of operator nodes."""
     out = [obj]
     if type(obj).__name__ not in ('Bool', 'AtomicProposition'):
+        out.append(obj._subformula)
         for x in obj._subformula:
             out.extend(nodes_of(x))
     return out
+
+
+def build_raw(f, L):
+    """Build f the other documented way: leaf operands handed over as plain str / bool, the constructor
+    doing the wrapping (And('p', True), Not('q'), ...).  A leaf at the root stays an object."""
+    def operand(x):
+        if x[0] == 't':
+            return True
+        if x[0] == 'f':
+            return False
+        if x[0] == 'ap':
+            return x[1]
+        return build_raw(x, L)
+    if f[0] in ('t', 'f', 'ap'):
+        return lib.build(f, L)
+    return getattr(L, lib.OP2CLASS[f[0]])(*[operand(x) for x in f[1:]])
 
 
 def check_pair(lg, tf, tg, f, g, acc):
@@ -284,10 +302,15 @@ def run_shard(shard, tier, seed, acc):
                 acc.violation('clone-after-mutated-clone-differs', case, spaces.fstr(t), str(c3))
         return
     if kind == 'clone':
-        for t in P:
-            o = lib.build(t, L)
+        for t, raw in [(t, raw) for t in P for raw in (False, True)]:
+            if raw and spaces.size_of(t) < 1:
+                continue
+            o = build_raw(t, L) if raw else lib.build(t, L)
             acc.ev(1, 1 if spaces.size_of(t) >= 1 else 0)
-            case = {'logic': lg, 'f': spaces.fstr(t), 'f_tree': spaces.to_jsonable(t)}
+            case = {'logic': lg, 'f': spaces.fstr(t), 'f_tree': spaces.to_jsonable(t), 'raw_operands': raw}
+            if raw and lib.read(o) != t:
+                acc.violation('constructor-wraps-wrongly', case, spaces.fstr(t), str(o))
+                continue
             r = call(o.clone)
             if r[0] != 'ok':
                 acc.violation('clone-exception', case, None, r[1:])
@@ -310,6 +333,8 @@ def run_shard(shard, tier, seed, acc):
             # mutate the clone: the original must not notice
             before = str(o)
             for x in nodes_of(c):
+                if isinstance(x, list):
+                    continue
                 if type(x).__name__ == 'AtomicProposition':
                     x.name = 'zz'
                 elif type(x).__name__ == 'Bool':
@@ -333,7 +358,7 @@ def replay(art):
     elif kind.startswith('clone'):
         lg = c['logic']
         t = spaces.from_jsonable(c['f_tree'])
-        o = lib.build(t, lib.LANGS[lg])
+        o = build_raw(t, lib.LANGS[lg]) if c.get('raw_operands') else lib.build(t, lib.LANGS[lg])
         cl = o.clone()
         ids = set(id(x) for x in nodes_of(o))
         bad = lib.read(cl) != t or not (cl == o) or any(id(x) in ids for x in nodes_of(cl))
